@@ -6,6 +6,9 @@ traffic recorded so far, field-level edits that stay well-formed, blind strings)
 are delivered to both of them from spoofed and foreign addresses, with virtual
 time jumps in between; hostile byte streams are fed to TCP and WebSocket
 sessions in random chunks.  Afterwards canary requests must be answered."""
+import os
+import re
+
 from .. import build, common, gen, world
 from ..refs import coapwire as cw
 from . import c05, c14
@@ -748,6 +751,142 @@ def ws_client_scenario(exe, r, run, stats, idx):
             w.close(kill=True)
 
 
+# ------------------------------------------------------------------ coverage-guided part
+# harness/fuzz.c: one libFuzzer input = one life of a server+client context in the closed
+# world (datagrams from four peers, TCP and WebSocket streams, virtual time, notifications,
+# traffic to a client session with an observation, a Block2 download and a Block1 upload in
+# flight), sanitizers + libFuzzer's time-out + a canary request at the end.  The seed corpus is
+# written here from the reference encoder; the mutations are libFuzzer's, steered by coverage.
+
+def _fz_op(kind, arg=0, data=None):
+    b = bytes([(arg << 3) | kind])
+    if data is None:
+        return b
+    if len(data) < 255:
+        return b + bytes([len(data)]) + data
+    return b + b"\xff" + len(data).to_bytes(2, "big") + data
+
+
+def fuzz_corpus(r):
+    """seed inputs in the format of harness/fuzz.c"""
+    from . import c05
+    out = []
+    tok = b"\xaa\x01"
+    get = lambda path, extra=(), typ=0, mid=0x100: cw.encode(cw.msg(  # noqa: E731
+        1, type=typ, mid=mid, token=tok, options=[(11, path)] + list(extra)), "udp")
+    blk = lambda num, m, szx: cw.uint_bytes((num << 4) | (m << 3) | szx)  # noqa: E731
+    for cfg in (0, 1, 2, 3, 4, 5, 7):
+        out.append(bytes([cfg]) + _fz_op(0, 0, get(b"r")))
+        out.append(bytes([cfg]) + _fz_op(0, 0, get(b"big")) + _fz_op(0, 0, get(
+            b"big", [(23, blk(1, 0, 6))], mid=0x101)) + _fz_op(1, 6))
+        out.append(bytes([cfg]) + _fz_op(0, 1, get(b"o", [(6, b"")])) + _fz_op(4) + _fz_op(1, 3) +
+                   _fz_op(4) + _fz_op(0, 1, bytes([0x70, 0, 0, 1])) + _fz_op(1, 20))
+        body = bytes(range(48))
+        ups = b""
+        for i in range(3):
+            ups += _fz_op(0, 2, cw.encode(cw.msg(3, type=0, mid=0x200 + i, token=b"\xab", options=[
+                (11, b"up"), (27, blk(i, 1 if i < 2 else 0, 0)), (60, b"\x30")],
+                payload=body[16 * i:16 * i + 16]), "udp"))
+        out.append(bytes([cfg]) + ups)
+        out.append(bytes([cfg]) + _fz_op(0, 0, get(b".well-known", [(11, b"core"), (15, b"rt=sensor")])))
+        out.append(bytes([cfg]) + _fz_op(6, 0, get(b"r", typ=1)) + _fz_op(1, 12))
+        # the client session: an ACK, a notification and a block for its three exchanges
+        out.append(bytes([cfg]) + _fz_op(5, 0, bytes([0x60, 0, 0, 1])) +
+                   _fz_op(5, 0, cw.encode(cw.msg(0x45, type=1, mid=0x300, token=b"\xb1\x01",
+                                                 options=[(6, b"\x05")], payload=b"7"), "udp")) +
+                   _fz_op(5, 0, cw.encode(cw.msg(0x45, type=1, mid=0x301, token=b"\xb1\x02",
+                                                 options=[(23, blk(0, 1, 2))], payload=bytes(64)),
+                                          "udp")) +
+                   _fz_op(5, 0, cw.encode(cw.msg(0x5f, type=1, mid=0x302, token=b"\xb1\x03",
+                                                 options=[(27, blk(0, 1, 6))]), "udp")) +
+                   _fz_op(1, 8))
+    # streams: CSM + requests over TCP; WebSocket handshake + masked frames
+    msgs = c05.gen_stream_messages(r, "server")[:4]
+    st = b"".join(cw.encode(m, "tcp") for m in [cw.msg(0xE1)] + msgs)
+    out.append(b"\x00" + _fz_op(2, 0, st))
+    out.append(b"\x04" + _fz_op(2, 0, st[:7]) + _fz_op(2, 0, st[7:]) + _fz_op(7, 0))
+    ws = c05.ws_handshake(r) + c05.ws_stream(r, msgs)
+    out.append(b"\x00" + _fz_op(3, 0, ws[:200]) + _fz_op(3, 0, ws[200:]))
+    # an OSCORE request for the server's fixed context (kid empty, any Partial IV): not
+    # authentic, but the option and kid are right so that the OSCORE paths open up
+    out.append(b"\x00" + _fz_op(0, 0, cw.encode(cw.msg(2, type=0, mid=0x400, token=b"\xac", options=[
+        (9, b"\x09\x14")], payload=bytes(17)), "udp")))
+    out.append(b"\x00" + _fz_op(0, 0, cw.encode(cw.msg(2, type=0, mid=0x401, token=b"\xac", options=[
+        (9, b"\x19\x14\x03\x42\x01\x02")], payload=bytes(17)), "udp")))
+    return out
+
+
+def fuzz_part(run, tier):
+    import glob
+    import shutil
+    import subprocess
+    import tempfile
+    wraps = [x for x in build.WORLD_WRAPS if x not in ("fopen", "fclose", "fwrite", "fread", "fgets",
+                                                       "fflush", "fprintf", "rename", "remove")]
+    exe = build.ensure_harness("fuzz", "fuzz", ["fuzz.c", "wraps.c"],
+                               extra_cflags=["-fsanitize=fuzzer"], wraps=wraps)
+    nproc, runs = (8, 25000) if tier == "quick" else (16, 1500000)
+    top = tempfile.mkdtemp(prefix="vf-fuzz-", dir=build.build_root())
+    env = dict(os.environ, ASAN_OPTIONS="detect_leaks=0:allocator_may_return_null=1:"
+               "max_allocation_size_mb=512:abort_on_error=1", UBSAN_OPTIONS="print_stacktrace=1")
+    procs = []
+    try:
+        seeds = fuzz_corpus(common.rng("c02-fuzz-corpus"))
+        for i in range(nproc):
+            cdir = os.path.join(top, "c%d" % i)
+            adir = os.path.join(top, "a%d" % i)
+            os.makedirs(cdir)
+            os.makedirs(adir)
+            for k, sd in enumerate(seeds):
+                with open(os.path.join(cdir, "seed%03d" % k), "wb") as f:
+                    f.write(sd)
+            cmd = [exe, cdir, "-runs=%d" % runs, "-seed=%d" % (common.seed() * 100 + i + 1),
+                   "-max_len=4096", "-timeout=30", "-rss_limit_mb=4096", "-len_control=50",
+                   "-artifact_prefix=" + adir + "/", "-print_final_stats=1", "-verbosity=0"]
+            procs.append((i, adir, subprocess.Popen(cmd, stdout=subprocess.DEVNULL,
+                                                    stderr=subprocess.PIPE, env=env)))
+        execs = 0
+        cov = 0
+        for i, adir, p in procs:
+            try:
+                _, err = p.communicate(timeout=600 if tier == "quick" else 5400)
+            except subprocess.TimeoutExpired:
+                p.kill()
+                _, err = p.communicate()
+                run.extra["fuzz_wallclock_cutoffs"] = run.extra.get("fuzz_wallclock_cutoffs", 0) + 1
+                continue
+            err = err.decode("latin1")
+            m = re.search(r"number_of_executed_units:\s*(\d+)", err)
+            if m:
+                execs += int(m.group(1))
+            arts = sorted(glob.glob(os.path.join(adir, "*")))
+            if p.returncode != 0 or arts:
+                data = open(arts[0], "rb").read() if arts else b""
+                if "VF-CANARY" in err:
+                    sig = "fuzz/canary-failed"
+                elif arts and os.path.basename(arts[0]).startswith("timeout-"):
+                    sig = "fuzz/timeout"
+                elif arts and os.path.basename(arts[0]).startswith("oom-"):
+                    sig = "fuzz/out-of-memory"
+                else:
+                    sig = "fuzz/sanitizer/" + (common.sanitizer_signature(err) or
+                                               "exit-rc%s" % p.returncode)
+                run.violation(sig, {"kind": "fuzz", "input_hex": data.hex(), "process": i,
+                                    "libfuzzer_seed": common.seed() * 100 + i + 1,
+                                    "stderr": err[-3000:]}, err[-1500:])
+            cov = max(cov, len(glob.glob(os.path.join(top, "c%d" % i, "*"))))
+        run.extra["fuzz_executions"] = execs
+        run.extra["fuzz_corpus_seeds"] = len(seeds)
+        run.extra["fuzz_corpus_grown_to"] = cov
+        run.evaluations += execs
+        run.require("fuzz_executions", execs, nproc * runs // 2)
+    finally:
+        for _, _, p in procs:
+            if p.poll() is None:
+                p.kill()
+        shutil.rmtree(top, ignore_errors=True)
+
+
 def work(job):
     exe, seeds, tier, memcheck = job
     MODE["memcheck"] = memcheck
@@ -793,7 +932,13 @@ def main(tier):
                 "runs no request/response/ping/pong handler and draws at most one reply; canary "
                 "GETs afterwards (fresh peer, abused client session, fresh TCP connection) are "
                 "answered 2.05 with the body; a memcheck pass repeats the generators on the "
-                "uninstrumented build under valgrind (uninitialised-value-dependent control flow)")
+                "uninstrumented build under valgrind (uninitialised-value-dependent control flow); "
+                "a coverage-guided pass (libFuzzer, clang ASan+UBSan build, harness/fuzz.c): one "
+                "input is one life of a server+client context - datagrams from four peers, TCP and "
+                "WebSocket streams, virtual time, notifications, traffic to a client session with "
+                "an observation, a Block2 download and a Block1 upload in flight, an OSCORE "
+                "Appendix B.2 server context - from a seed corpus written by the reference "
+                "encoder, with the canary and libFuzzer's time-out as further oracles")
     run.assumptions = ["random exploration: held on the inputs that ran", "uninitialised reads are "
                        "judged by a valgrind memcheck pass over a smaller number of scenarios "
                        "(no MSan: GnuTLS is not instrumented)",
@@ -816,6 +961,7 @@ def main(tier):
         run.nontrivial |= seen
         run.merge(vios)
     run.evaluations = tot.get("hostile_datagrams", 0) + tot.get("scenarios", 0)
+    fuzz_part(run, tier)
     run.extra.update(tot)
     run.sample({"kind": "udp", "hostile": "Block2 option of a recorded response rewritten to "
                 "NUM=2^20-1 M=1 SZX=7, delivered to the client from the server's address"})
